@@ -34,6 +34,9 @@ pub struct GeoCase {
     in_multi: bool,
     #[serde(default)]
     resized_from: Option<u16>,
+    /// `{bar}` without a width in the template: 20 columns
+    #[serde(default)]
+    default_width: bool,
 }
 
 struct Parsed {
@@ -208,7 +211,9 @@ fn run_geo(c: &GeoCase) -> CaseResult {
     let mut v = Verdict::default();
     match &c.wide {
         None => {
-            let template = format!("{{bar:{}}}|{{frac}}", c.width);
+            let template = if c.default_width { "{bar}|{frac}".to_string() } else { format!("{{bar:{}}}|{{frac}}", c.width) };
+            let c = &GeoCase { width: if c.default_width { 20 } else { c.width }, ..c.clone() };
+            v.label_if(c.default_width, "bar_without_a_width");
             let r = rig(&c.chars, &template, u16::MAX).map_err(|p| Fail::new("panic", format!("building {template:?} chars {:?} panicked: {p}", c.chars)))?;
             let (line, frac) = r.draw(c.len, c.pos).map_err(|p| Fail::new("panic", format!("drawing {template:?} chars {:?} len {:?} pos {}: {p}", c.chars, c.len, c.pos)))?;
             let bar = line.strip_suffix('|').ok_or_else(|| Fail::new("shape", format!("line {line:?} lost its literal")))?;
@@ -220,6 +225,7 @@ fn run_geo(c: &GeoCase) -> CaseResult {
             v.label_if(cwidth == 2, "double_width_cells");
             v.label_if(c.len.map_or(false, |l| l > 1 << 32), "huge_len");
             v.label_if(chars.len() == 2, "two_chars");
+            v.label_if(chars.last().map_or(false, |c| c.is_whitespace()), "blank_background_glyph");
         }
         Some((term, left, right)) => {
             let mut template = format!("{left}{{wide_bar}}{right}{{frac}}");
@@ -247,6 +253,7 @@ fn run_geo(c: &GeoCase) -> CaseResult {
                 v.label("terminal_resized_between_frames");
             }
             v.label_if(c.in_multi, "wide_bar_inside_multi_progress");
+            v.label_if(chars.last().map_or(false, |c| c.is_whitespace()), "blank_background_glyph");
             v.label_if(nlines > 1, "wide_bar_in_multi_line_template");
             let (line, frac) = r.draw(c.len, c.pos).map_err(|p| Fail::new("panic", format!("drawing {template:?} on {term} columns: {p}")))?;
             let rest = console::measure_text_width(left) + console::measure_text_width(right);
@@ -273,6 +280,22 @@ fn run_geo(c: &GeoCase) -> CaseResult {
 }
 
 fn chars_strategy() -> BoxedStrategy<String> {
+    // in a fifth of the sets the background glyph is a blank of the set's width
+    (chars_strategy_visible(), 0u8..5)
+        .prop_map(|(s, k)| {
+            if k == 0 {
+                let mut cs: Vec<char> = s.chars().collect();
+                let wide = unicode_width::UnicodeWidthChar::width(cs[0]) == Some(2);
+                *cs.last_mut().unwrap() = if wide { '\u{3000}' } else { ' ' };
+                cs.into_iter().collect()
+            } else {
+                s
+            }
+        })
+        .boxed()
+}
+
+fn chars_strategy_visible() -> BoxedStrategy<String> {
     prop_oneof![
         3 => (2usize..=10, proptest::sample::subsequence(NARROW.to_vec(), 10), any::<bool>()).prop_map(|(n, mut pool, rev)| {
             if rev { pool.reverse(); }
@@ -314,7 +337,7 @@ fn geo_strategy() -> BoxedStrategy<GeoCase> {
     );
     let extra = (proptest::option::weighted(0.3, "[a-z:. \u{e9}\u{4e16}]{0,12}"), proptest::option::weighted(0.3, "[a-z:. \u{e9}\u{4e16}]{0,12}"));
     (chars_strategy(), width, len_pos_strategy(), wide, extra, any::<bool>(), proptest::option::weighted(0.3, 1u16..300))
-        .prop_map(|(chars, width, (len, pos), wide, extra, in_multi, resized_from)| GeoCase { chars, width, len, pos, wide, extra, in_multi, resized_from })
+        .prop_map(|(chars, width, (len, pos), wide, extra, in_multi, resized_from)| GeoCase { default_width: wide.is_none() && width % 7 == 0, chars, width, len, pos, wide, extra, in_multi, resized_from })
         .boxed()
 }
 
@@ -435,10 +458,10 @@ pub fn property() -> Property {
                 name: "random",
                 rule: "random distinct character sets of 2..=10 clusters (1 or 2 columns), width 0..=65535, (len,pos) incl. powers of two, u64::MAX, unknown length; 35% through literal{wide_bar}literal on terminals 1..300 columns (line width == W - (avail mod c)); non-trivial = 0 < pos < len with >= 2 cells",
                 strategy: |_| geo_strategy(),
-                cases: |t| t.pick(20_000, 1_000_000),
+                cases: |t| t.pick(60_000, 1_000_000),
                 run: run_geo,
                 signature: no_signature,
-                essential: &["partial_progress", "full", "double_width_cells", "huge_len", "two_chars", "wide_bar", "wide_bar_in_multi_line_template", "wide_bar_inside_multi_progress", "terminal_resized_between_frames", "rest_does_not_fit", "odd_remainder"],
+                essential: &["partial_progress", "full", "double_width_cells", "huge_len", "two_chars", "wide_bar", "bar_without_a_width", "blank_background_glyph", "wide_bar_in_multi_line_template", "wide_bar_inside_multi_progress", "terminal_resized_between_frames", "rest_does_not_fit", "odd_remainder"],
                 workers: w,
                 decode: None,
             }),
